@@ -495,6 +495,14 @@ dgsitrf(superlu_options_t *options, SuperMatrix *A, int relax, int panel_size,
 			if (error) { *info = error; return; }
 			lsub = Glu->lsub;
 		    }
+		    {   /* room for the explicit zero stored in lusup[] below */
+			int_t nzlumax = Glu->nzlumax;
+			while (xlusup[jj] + 1 > nzlumax) {
+			    int error = dLUMemXpand(jj, xlusup[jj], LUSUP, &nzlumax, Glu);
+			    if (error) { *info = error; return; }
+			    lsub = Glu->lsub;
+			}
+		    }
 		    xlsub[jj + 1]++;
 		    assert(xlusup[jj]==xlusup[jj+1]);
 		    xlusup[jj + 1]++;
